@@ -154,7 +154,7 @@ func TestC03(t *testing.T) {
 	replayKnown(t, col, "C03")
 	rapidCheck(t, col, func(rt *rapid.T) {
 		pr := gen.Program(rt, gen.ProgOpts{Depth: scale(3, 4), Block: 3, Funcs: 2, Clash: false, OptBias: true, IncDec: true,
-			Ternary: true, Switch: true, EarlyRet: true, ErrStmts: true, BigInts: true, NoSqrtFold: true})
+			Ternary: true, Switch: true, EarlyRet: true, ErrStmts: true, BigInts: true, PoolShift: true, NoSqrtFold: true})
 		mode := rapid.SampledFrom([]string{"map", "struct", "ptr"}).Draw(rt, "objmode")
 		c := &DiffCase{Prop: "C03", Kind: "diff", Script: lang.ProgramText(pr.P), Vars: map[string]lang.Value{}}
 		for _, b := range pr.In.Vars {
